@@ -290,9 +290,9 @@ Section Inv.
     Qed.
 
     Lemma k_numeric_jacobian : forall x,
-      nj_private fl = true -> keeps (Inv V) (numeric_jacobian fl func x).
+      nj_flat_copy fl = true /\ nj_pert_copy fl = true -> keeps (Inv V) (numeric_jacobian fl func x).
     Proof.
-      intros x Hp. unfold numeric_jacobian. rewrite Hp.
+      intros x [Hp Hq]. unfold numeric_jacobian. rewrite Hp, Hq.
       apply k_bind; [apply k_as_float_array|]. intros x0.
       eapply k_bind_post with (Q := fresh); [apply h_flatten_arr|]. intros xl Hxl.
       eapply k_bind_post with (Q := fresh); [apply h_copy_arr|]. intros a _.
@@ -530,7 +530,7 @@ Section Forms.
   Qed.
 
   Lemma k_jacobian_of_fn : forall x,
-    nj_private fl = true -> keeps Good (jacobian_of_fn fl autograd O x).
+    (nj_flat_copy fl = true /\ nj_pert_copy fl = true) -> keeps Good (jacobian_of_fn fl autograd O x).
   Proof.
     intros x Hp. unfold jacobian_of_fn. destruct autograd.
     - apply k_catch.
@@ -543,7 +543,7 @@ Section Forms.
   Proof. intros a v Ha. apply h_setvar. intros vs. apply Veq_set_same. exact Ha. Qed.
 
   Lemma k_multi_jacobian_of_fn : forall syms,
-    nj_private fl = true -> mj_finally fl = true ->
+    (nj_flat_copy fl = true /\ nj_pert_copy fl = true) -> mj_finally fl = true ->
     keeps Good (multi_jacobian_of_fn fl autograd O syms).
   Proof.
     intros syms Hp Hfin. unfold multi_jacobian_of_fn. rewrite Hfin.
@@ -619,13 +619,13 @@ Section Forms.
     end.
 
   Definition restores_in_finally : bool :=
-    grad_finally fl && mg_finally fl && mj_finally fl && nj_private fl.
+    grad_finally fl && mg_finally fl && mj_finally fl && (nj_flat_copy fl && nj_pert_copy fl).
 
   Lemma k_run_form : forall fm,
     restores_in_finally = true -> safe_form fm -> keeps Good (run_form fl autograd O fm).
   Proof.
     intros fm Hfl Hs. unfold restores_in_finally in Hfl.
-    apply andb_true_iff in Hfl. destruct Hfl as [Hfl Hnj].
+    apply andb_true_iff in Hfl. destruct Hfl as [Hfl Hnj]. apply andb_true_iff in Hnj.
     apply andb_true_iff in Hfl. destruct Hfl as [Hfl Hmj].
     apply andb_true_iff in Hfl. destruct Hfl as [Hg Hmg].
     destruct fm as [p|syms|p|v|p|syms]; cbn [run_form safe_form] in *.
